@@ -338,6 +338,9 @@ def main(tier_, replay=None):
     total += leaf_n
     twin_problems, twin_n = asyncio.run(twin_schemas_scenario())
     total += twin_n
+    from . import nestedvars
+    nv_problems, nv_n = nestedvars.run(rep, "C04")
+    total += nv_n
     for pr in twin_problems[:3]:
         rep.violation(dict(pr, property="C04", kind="variables are not coerced by the definitions of the engine's own schema"))
     for pr in leaf_problems[:4]:
@@ -348,7 +351,7 @@ def main(tier_, replay=None):
                        "sdl": gen.schema_sdl(s), "query": case[0], "variables": case[1],
                        "observed": observation(case, ast, run)[1],
                        "response": run["response"]})
-    if not spec_mm and not leaf_problems and not twin_problems:
+    if not spec_mm and not leaf_problems and not twin_problems and not nv_problems:
         if not proofs_ok:
             rep.violation({"property": "C04", "what": "proof obligation no longer checks",
                            "file": b.get("failed_file"), "theorem": b.get("failed_lemma"), "gate": gate,
